@@ -413,3 +413,91 @@ func TestProp_C19_Patterns(t *testing.T) {
 	}
 	sim.MarkCompleted("C19patterns", true)
 }
+
+// ---- C19 (peer part): a peer that uses the specification's freedoms, round after round ----
+
+// RefGrowCase: otr3 talks to the reference for 4N rounds of one traffic shape; what otr3 retains must level off.
+type RefGrowCase struct {
+	V     int `json:"v"`
+	Kid   int `json:"kid"`   // serial number of the reference's first D-H key
+	Pad   int `json:"pad"`   // > 0: padding record first
+	Shape int `json:"shape"` // 0 ping-pong; 1 the reference talks, otr3 listens; 2 otr3 talks, the reference acknowledges every third text; 3 ping-pong with flagged texts
+	N     int `json:"n"`
+}
+
+func runC19Ref(c *RefGrowCase) *sim.Outcome {
+	o := &sim.Outcome{}
+	m := newMix(SessCfg{V: c.V, SeedA: 1940, SeedB: 2041, KeyA: 0, KeyB: 3, RKid: c.Kid, RPad: c.Pad}, 0)
+	if !m.Establish(c.Shape & 1) {
+		o.Discard = true
+		return o
+	}
+	n := c.N
+	if n < 4 {
+		n = 4
+	}
+	size := make([]int, 4*n+1)
+	for i := 1; i <= 4*n; i++ {
+		switch c.Shape % 4 {
+		case 0:
+			m.ASend([]byte(token(0, i)))
+			m.fromR(m.R.Send([]byte(token(1, i))))
+		case 1:
+			m.fromR(m.R.Send([]byte(token(1, i))))
+			sim.Age(m.A.C, 2*60e9) // (a listener's heartbeat is its only output)
+		case 2:
+			m.ASend([]byte(token(0, i)))
+			if i%3 == 0 {
+				m.fromR(m.R.Send([]byte(token(1, i))))
+			}
+		case 3:
+			m.ASend([]byte(token(0, i)))
+			m.fromR(m.R.SendOpts([]byte(token(1, i)), ref.DataOpts{Flags: 1}))
+		}
+		bad := false
+		m.Settle(func(cl *sim.Call) { bad = bad || (cl != nil && cl.Err != nil) }, func(_ []byte, err error) { bad = bad || err != nil })
+		if bad {
+			return o.Fail("C19/harness-traffic", "round %d: a genuine message was refused by one side", i)
+		}
+		size[i] = sim.Walk(m.A.C).Size
+	}
+	base := 0
+	for i := 1; i <= n; i++ {
+		if size[i] > base {
+			base = size[i]
+		}
+	}
+	for _, k := range []int{2 * n, 4 * n} {
+		if size[k] > base+1024 {
+			return o.Fail("C19/state-grows", "talking to a peer that numbers its keys from %d (padding first: %v, traffic shape %d), otr3 retains %d bytes after %d rounds; the largest it held during the first %d rounds was %d", c.Kid, c.Pad > 0, c.Shape%4, size[k], k, n, base)
+		}
+	}
+	if d1, d2 := size[2*n]-base, size[4*n]-size[2*n]; d1 >= 96 && 2*d2 >= 3*d1 {
+		return o.Fail("C19/state-grows", "talking to a peer that numbers its keys from %d (traffic shape %d), otr3's retained state does not level off: at most %d bytes during the first %d rounds, %d after %d, %d after %d", c.Kid, c.Shape%4, base, n, size[2*n], 2*n, size[4*n], 4*n)
+	}
+	o.Class(fmt.Sprintf("shape%d-kid%d", c.Shape%4, c.Kid))
+	o.NonTrivial = true
+	return o
+}
+
+func init() { reg("C19ref", runC19Ref) }
+
+func TestProp_C19_Ref(t *testing.T) {
+	si, sn := sim.Shard()
+	n := 12
+	if sim.Thorough() {
+		n = 64
+	}
+	idx := 0
+	for _, v := range []int{3, 2} {
+		for _, kid := range []int{0, 2, 100, 70000} {
+			for shape := 0; shape < 4; shape++ {
+				idx++
+				if idx%sn == si {
+					sim.Judge(t, "C19ref", &RefGrowCase{V: v, Kid: kid, Pad: (kid + shape) % 3, Shape: shape, N: n})
+				}
+			}
+		}
+	}
+	sim.MarkCompleted("C19ref", true)
+}
